@@ -132,11 +132,13 @@ def expect_with_extras(ts, flag):
     return ts.replace(extras=ex)
 
 
-def run_case(ctx, rig, key_words, plan=None, actions=None, fail=None):
+def run_case(ctx, rig, key_words, plan=None, actions=None, fail=None, typed=False):
     import jax
 
     b, flag = rig.b, rig.flag
     key = envs.make_key(key_words)
+    if typed:   # new-style typed key (jax.random.key) instead of a raw uint32 pair
+        key = jax.random.wrap_key_data(key)
     s, wts = rig.w_reset(key)
     s_b, ts_b = b.reset(key)
     d = treecmp.diff(episodes.host(s), episodes.host(s_b))
@@ -146,8 +148,8 @@ def run_case(ctx, rig, key_words, plan=None, actions=None, fail=None):
     if d:
         fail("reset.timestep", "wrapper reset timestep != env reset timestep (+next_obs)", d)
     s0_init = s
-    acts, outs = [], []
-    reset_keys = [tuple(np.asarray(key).tolist())]
+    acts, outs, devs = [], [], []
+    reset_keys = [tuple(np.asarray(episodes.host(key)).tolist())]
     digests = [instance_digest(episodes.host(s))]
     boundaries = 0
     n = len(plan["steps"]) if actions is None else len(actions)
@@ -202,10 +204,11 @@ def run_case(ctx, rig, key_words, plan=None, actions=None, fail=None):
             d = treecmp.diff(hwts.extras, hwant.extras)
             if d:
                 fail("last.extras", "terminal step: extras are not those of the terminal timestep (+next_obs)", f"step {i}: {d}")
-            reset_keys.append(tuple(np.asarray(k).tolist()))
+            reset_keys.append(tuple(np.asarray(episodes.host(k)).tolist()))
             digests.append(instance_digest(hws))
             ctx.nontrivial(b.name, b.entry, flag, list(key_words), boundaries)
         outs.append((hws, hwts))
+        devs.append(ws)
         s, wts = ws, wts2
     if len(set(reset_keys)) != len(reset_keys):
         fail("keys.repeat", "two resets of one run used the same key", f"{reset_keys[:6]}")
@@ -228,7 +231,7 @@ def run_case(ctx, rig, key_words, plan=None, actions=None, fail=None):
                 break
         # three points of the run as one vmapped wrapper step
         idx = [0, N_STEPS // 3, N_STEPS - 2]
-        prev_states = [s0_init if i == 0 else outs[i - 1][0] for i in idx]
+        prev_states = [s0_init if i == 0 else devs[i - 1] for i in idx]
         from jumanji.tree_utils import tree_transpose
 
         bs = tree_transpose(prev_states)
@@ -264,6 +267,11 @@ def work_items(tier, flt):
     if tier != "quick":
         stacks += [("Game2048", False, True), ("Maze", True, True), ("Connector", True, True), ("Maze", False, "zeromid"),
                    ("Knapsack", True, "zeromid"), ("Connector", False, "m2smin"), ("LevelBasedForaging", True, "m2smin")]
+    for env, flag in ((("Snake", False), ("Knapsack", True)) if tier == "quick" else
+                      (("Snake", False), ("Knapsack", True), ("Game2048", True), ("Maze", False), ("Tetris", True))):
+        if envs.select_envs([env], flt):
+            items.append({"env": env, "entry": SHORT_ENTRY[env], "flag": flag, "typed": True,
+                          "n": max(2, int((5 if tier == "quick" else 25) * scale)), "cost": 1})
     for env, flag, kind in stacks:
         if envs.select_envs([env], flt):
             entry = "g6a3t50rw" if (env == "Connector" and kind == "m2smin") else SHORT_ENTRY[env]
@@ -283,14 +291,14 @@ def run_item(item, seed, tier):
 
         def one(key, plan):
             case = {"env": env, "entry": entry, "flag": flag, "key": list(key), "actions": [],
-                    "stack": item.get("stack", False)}
+                    "stack": item.get("stack", False), "typed": bool(item.get("typed"))}
 
             def fail(oracle, sig, msg):
                 ctx.fail(oracle, env, sig, f"{msg} [entry={entry} flag={flag} stack={case['stack']} key={list(key)}]", case,
                          size=len(case["actions"]))
 
             with ctx.guard(env, case, size=10**6):
-                acts, nb = run_case(ctx, rig, key, plan=plan, fail=fail)
+                acts, nb = run_case(ctx, rig, key, plan=plan, fail=fail, typed=case["typed"])
                 case["actions"] = [a.tolist() for a in acts]
                 for f in ctx.failures.values():
                     if f["case"] is not None and f["case"].get("key") == list(key) and not f["case"].get("actions"):
@@ -320,5 +328,5 @@ def replay(case):
         def fail(oracle, sig, msg):
             ctx.fail(oracle, env, sig, msg, case)
 
-        run_case(ctx, rig, case["key"], actions=case["actions"], fail=fail)
+        run_case(ctx, rig, case["key"], actions=case["actions"], fail=fail, typed=bool(case.get("typed")))
     return list(ctx.failures.values())
